@@ -332,7 +332,17 @@ def install(eng: E.Engine, classes: Classes, inline_props=True):
         if d.kind == "method":
             key = f"{cls}.{name}"
             if key not in engine.contracts and f"{d.owner}.{name}" not in engine.contracts:
-                engine.contracts[f"{d.owner}.{name}"] = inline_method(d.node)
+                # dynamic dispatch: the object may be an instance of any subclass of its static class; a subclass of the repo that
+                # overrides the method gives another implementation, and the caller must satisfy its obligation with each of them
+                impls = {d.owner: d.node}
+                for sub in engine.lat.subclasses(cls):
+                    ds = classes.member(engine.lat, sub, name)
+                    if ds is not None and ds.kind == "method" and ds.owner not in impls:
+                        impls[ds.owner] = ds.node
+                if len(impls) == 1:
+                    engine.contracts[f"{d.owner}.{name}"] = inline_method(d.node)
+                else:
+                    engine.contracts[key] = dispatch_method(impls)
             return ("method", key)
         return None
     eng.contracts["member"] = member
@@ -349,6 +359,18 @@ def constructor(classes: Classes, cls: str):
         out = []
         for s, v in eng.call_function(E.VFunc(d.node, dict(eng.globals), None, "__init__"), [obj] + list(args), kw, st):
             out.append((s, v if isinstance(v, E.VExc) else obj))
+        return out
+    return c
+
+
+def dispatch_method(impls):
+    """non-deterministic choice among the implementations of the static class and of its overriding subclasses (over-approximation)"""
+    def c(eng, st, args, kw):
+        out = []
+        for owner, node in sorted(impls.items()):
+            s2 = st.fork()
+            s2.trace.append(f"dispatch:{owner}.{node.name}")
+            out += eng.call_function(E.VFunc(node, dict(eng.globals), None, node.name), list(args), dict(kw), s2)
         return out
     return c
 
